@@ -4,7 +4,10 @@ import (
 	"fmt"
 	"go/token"
 	"go/types"
+	"os"
+	"regexp"
 	"sort"
+	"strconv"
 	"strings"
 
 	"czcheck/an"
@@ -21,7 +24,7 @@ func init() {
 			"R3 contradiction rule for optional values: a struct field that is compared with nil somewhere is only invoked/dereferenced under a dominating non-nil fact (or after a non-nil store); values obtained together with an error are not used on the error branch; " +
 			"R4 Init->Evaluate typestate for every registered action and operator: a field invoked or dereferenced by Evaluate is assigned on every successful path of Init / the factory, or tested for nil before use; " +
 			"R5 run-time limits reach slice bounds only range-checked (shared with C10.R2/R3); R6 (incl. indices counted down in a loop, which need a lower bound, and variables indexing fixed-size arrays, which need both bounds; validators returning an error contribute what they guarantee when they return nil) look-ahead and fixed-position reads in the configuration parser, macro expander, string helpers, actions and engine are dominated by a length fact (A9 shapes only); " +
-			"R7 Include recursion is bounded by a counter tested before recursing; R8 every non-constant size handed to an allocation primitive (make, Builder/Buffer.Grow, Repeat) is provably non-negative, and a make with both len and cap has len <= cap; R2 also covers assertions to interface types (every possible dynamic type implements the target); R3 also follows pointer fields that a composite literal leaves unset and nothing ever assigns (nil for the object's whole life) through accessors and interface wrapping to every dereference; R9 every store to Rule.DisruptiveStatus carries a status net/http's WriteHeader accepts (0 or 100..999, by constant or by dominating comparisons).",
+			"R7 Include recursion is bounded by a counter tested before recursing; R8 every non-constant size handed to an allocation primitive (make, Builder/Buffer.Grow, Repeat) is provably non-negative, and a make with both len and cap has len <= cap; R2 also covers assertions to interface types (every possible dynamic type implements the target); R3 also follows pointer fields that a composite literal leaves unset and nothing ever assigns (nil for the object's whole life) through accessors and interface wrapping to every dereference; R9 every store to Rule.DisruptiveStatus carries a status net/http's WriteHeader accepts (0 or 100..999, by constant or by dominating comparisons). R10 every scanning loop of the decoders and parsers whose continuation test reads a loop-carried position advances that position on every feasible path of an iteration (a path that returns to the test unchanged is accepted only when its last edge falsifies the test, and the false side of `j > 0` is pruned when j is a counter whose bounded inner loop provably runs once).",
 		NotDecided: []string{
 			"panics from arithmetic, map writes on nil maps, and index shapes outside x[c], x[v+c], x[len-c]",
 			"panics inside third-party libraries (regexp, aho-corasick, gjson, libinjection, xml)",
@@ -231,6 +234,357 @@ func runC07(c *an.Ctx) {
 
 	// ---- R9 the status of a disruptive rule is one a connector can send.
 	c07Status(c)
+
+	// ---- R10 scanning loops make progress.
+	c07Progress(c)
+}
+
+// c07ProgressAllow: no-progress paths that are infeasible for a reason the path search does not see.
+var c07ProgressAllow = map[string]string{
+	"internal/strings.RandomString|i": "rejection sampling over a random source: the position is kept when the drawn index falls outside the alphabet, which happens with probability < 1/2 per draw and does not depend on any input",
+}
+
+// c07EdgeInfeasible: the CFG edge pred->succ is the false side of a test `v > 0` (v >= 1, v != 0) where v is
+// provably positive.  The one proof implemented is the idiom of the decoders: a counter j that starts at a
+// non-negative constant, is incremented in a bounded inner loop, and whose loop is entered under a guard that
+// already implies the loop's own continuation test for the initial value of j (so the body runs at least once).
+func c07EdgeInfeasible(pred, succ *ssa.BasicBlock) bool {
+	if len(pred.Instrs) == 0 {
+		return false
+	}
+	ifi, ok := pred.Instrs[len(pred.Instrs)-1].(*ssa.If)
+	if !ok || len(pred.Succs) != 2 || pred.Succs[0] == pred.Succs[1] {
+		return false
+	}
+	b, ok := ifi.Cond.(*ssa.BinOp)
+	if !ok {
+		return false
+	}
+	k, isC := an.ConstInt(b.Y)
+	if !isC {
+		return false
+	}
+	positiveTest := b.Op == token.GTR && k == 0 || b.Op == token.GEQ && k == 1 || b.Op == token.NEQ && k == 0
+	if !positiveTest || pred.Succs[1] != succ {
+		return false
+	}
+	r := c07Positive(b.X, map[ssa.Value]bool{})
+	if os.Getenv("CZ_DEBUG_C07") != "" {
+		fmt.Fprintln(os.Stderr, "C07DBG edge test", an.Expr(ifi.Cond), "positive:", r)
+	}
+	return r
+}
+
+func c07Positive(v ssa.Value, seen map[ssa.Value]bool) bool {
+	if seen[v] {
+		return true
+	}
+	seen[v] = true
+	if k, ok := an.ConstInt(v); ok {
+		return k > 0
+	}
+	switch x := v.(type) {
+	case *ssa.BinOp:
+		if x.Op == token.ADD {
+			if k, ok := an.ConstInt(x.Y); ok && k >= 1 {
+				return c07NonNegCounter(x.X)
+			}
+		}
+		return false
+	case *ssa.Phi:
+		lp := an.InnermostLoop(x.Block())
+		if lp != nil && lp.Header == x.Block() {
+			return c07PositiveAtExit(x, lp)
+		}
+		for _, e := range x.Edges {
+			if !c07Positive(e, seen) {
+				return false
+			}
+		}
+		return len(x.Edges) > 0
+	}
+	return false
+}
+
+// c07NonNegCounter: v is a loop header phi starting at a constant >= 0 whose back-edge values are v + c, c >= 1.
+func c07NonNegCounter(v ssa.Value) bool {
+	phi, ok := v.(*ssa.Phi)
+	if !ok {
+		return false
+	}
+	lp := an.InnermostLoop(phi.Block())
+	if lp == nil || lp.Header != phi.Block() {
+		return false
+	}
+	for j, e := range phi.Edges {
+		if !lp.Blocks[phi.Block().Preds[j]] {
+			if k, ok := an.ConstInt(e); !ok || k < 0 {
+				return false
+			}
+			continue
+		}
+		okInc := true
+		var leaf func(v ssa.Value, d int)
+		seen := map[ssa.Value]bool{}
+		leaf = func(v ssa.Value, d int) {
+			if seen[v] || d > 6 || v == ssa.Value(phi) {
+				return
+			}
+			seen[v] = true
+			if p2, ok := v.(*ssa.Phi); ok {
+				for _, e2 := range p2.Edges {
+					leaf(e2, d+1)
+				}
+				return
+			}
+			if k, ok := an.ConstInt(v); ok && k >= 0 {
+				return
+			}
+			if b, ok := v.(*ssa.BinOp); ok && b.Op == token.ADD {
+				if k, ok := an.ConstInt(b.Y); ok && k >= 0 {
+					leaf(b.X, d+1)
+					return
+				}
+			}
+			okInc = false
+		}
+		leaf(e, 0)
+		if !okInc {
+			return false
+		}
+	}
+	return true
+}
+
+// c07PositiveAtExit: the counter phi of loop lp is >= 1 whenever the loop is left before the counter's increment
+// of the current iteration, because the first evaluation of every such exit test is implied by the facts under
+// which the loop is entered (the body runs at least once).
+func c07PositiveAtExit(phi *ssa.Phi, lp *an.Loop) bool {
+	if !c07NonNegCounter(phi) {
+		return false
+	}
+	init := ""
+	for j, e := range phi.Edges {
+		if !lp.Blocks[phi.Block().Preds[j]] {
+			if k, ok := an.ConstInt(e); ok {
+				init = fmt.Sprint(k)
+			}
+		}
+	}
+	if init == "" {
+		return false
+	}
+	// the increment(s) of the counter inside the loop
+	var incs []*ssa.BinOp
+	for _, r := range *phi.Referrers() {
+		if b, ok := r.(*ssa.BinOp); ok && b.Op == token.ADD && b.X == ssa.Value(phi) && lp.Blocks[b.Block()] {
+			if k, ok := an.ConstInt(b.Y); ok && k >= 1 {
+				incs = append(incs, b)
+			}
+		}
+	}
+	if len(incs) == 0 {
+		return false
+	}
+	name := regexp.MustCompile(regexp.QuoteMeta(an.Expr(phi)) + `\b`)
+	entry := an.FactsAtBlock(phi.Block())
+	simplify := func(e string) string {
+		e = name.ReplaceAllString(e, init)
+		for {
+			n := strings.NewReplacer(" + 0)", ")", "(0 + ", "(").Replace(e)
+			// "(X)" left by the replacement around a parenthesised operand: "((*i + 1))" -> "(*i + 1)"
+			n = strings.ReplaceAll(n, "((", "(\x00")
+			n = strings.ReplaceAll(n, "(\x00", "((")
+			if n == e {
+				break
+			}
+			e = n
+		}
+		for strings.HasPrefix(e, "((") && strings.HasSuffix(e, "))") {
+			e = e[1 : len(e)-1]
+		}
+		return e
+	}
+	for b := range lp.Blocks {
+		ifi, ok := b.Instrs[len(b.Instrs)-1].(*ssa.If)
+		if !ok {
+			continue
+		}
+		exitIdx := -1
+		for si, sc := range b.Succs {
+			if !lp.Blocks[sc] {
+				exitIdx = si
+			}
+		}
+		if exitIdx < 0 {
+			continue
+		}
+		// only tests evaluated before the increment of the iteration matter
+		pre := false
+		for _, inc := range incs {
+			if b != inc.Block() && b.Dominates(inc.Block()) {
+				pre = true
+			}
+		}
+		if !pre {
+			continue
+		}
+		// the staying edge's condition, with the counter at its initial value, must follow from the entry facts
+		for _, a := range an.CondAtoms(ifi.Cond, exitIdx == 1) {
+			l, r := simplify(a.L), simplify(a.R)
+			if li, err1 := strconv.ParseInt(l, 10, 64); err1 == nil {
+				if ri, err2 := strconv.ParseInt(r, 10, 64); err2 == nil {
+					holds := map[string]bool{"<": li < ri, "<=": li <= ri, ">": li > ri, ">=": li >= ri, "==": li == ri, "!=": li != ri}[a.Op]
+					if !holds {
+						return false
+					}
+					continue
+				}
+			}
+			implied := false
+			for _, f := range entry {
+				if f.Op == a.Op && simplify(f.L) == l && simplify(f.R) == r {
+					implied = true
+				}
+			}
+			if os.Getenv("CZ_DEBUG_C07") != "" {
+				fmt.Fprintln(os.Stderr, "C07DBG atom", a.String(), "->", l, a.Op, r, "implied", implied, "entry", entry.Strings())
+			}
+			if !implied {
+				return false
+			}
+		}
+	}
+	return true
+}
+
+// c07Progress: the hand-written decoders and scanners walk their input with `for i < n { ... }` loops whose
+// position is advanced inside the body, differently in every branch.  Such a loop hangs as soon as one path
+// through the body comes back to the loop test with the position unchanged (the test gives the same answer
+// forever): e.g. an escape branch that consumes its bytes only "if something was decoded".  For every loop of the
+// byte-oriented packages whose continuation test reads a loop-carried integer, no path of one iteration may
+// carry that integer back to the header unchanged — unless another loop-carried value of the test changed on it.
+func c07Progress(c *an.Ctx) {
+	n := 0
+	for _, fn := range c.P.ModFuncs {
+		rp := relPkg(fn)
+		if rp != "internal/transformations" && rp != "internal/strings" && rp != "internal/url" && rp != "internal/seclang" && rp != "internal/cookies" && rp != "internal/bodyprocessors" {
+			continue
+		}
+		for _, b := range fn.Blocks {
+			lp := an.InnermostLoop(b)
+			if lp == nil || lp.Header != b {
+				continue
+			}
+			ifi, ok := b.Instrs[len(b.Instrs)-1].(*ssa.If)
+			if !ok {
+				continue
+			}
+			// header phis the continuation test depends on
+			deps := an.Deps(ifi.Cond)
+			var ctl []*ssa.Phi
+			for _, in := range b.Instrs {
+				phi, ok := in.(*ssa.Phi)
+				if !ok {
+					break
+				}
+				if bt, ok := phi.Type().Underlying().(*types.Basic); ok && bt.Info()&types.IsInteger != 0 && deps[phi] {
+					ctl = append(ctl, phi)
+				}
+			}
+			if len(ctl) == 0 {
+				continue
+			}
+			n++
+			c.FuncsAnalysed[fn] = true
+			// unchanged(phi, predIndex): the value entering phi on that back edge can be phi itself
+			var canBeSelf func(v ssa.Value, self *ssa.Phi, seen map[ssa.Value]bool) bool
+			canBeSelf = func(v ssa.Value, self *ssa.Phi, seen map[ssa.Value]bool) bool {
+				if v == ssa.Value(self) {
+					return true
+				}
+				if seen[v] {
+					return false
+				}
+				seen[v] = true
+				if p2, ok := v.(*ssa.Phi); ok {
+					for j, e := range p2.Edges {
+						if c07EdgeInfeasible(p2.Block().Preds[j], p2.Block()) {
+							continue
+						}
+						if canBeSelf(e, self, seen) {
+							return true
+						}
+					}
+				}
+				return false
+			}
+			stuck := true
+			var where []string
+			for _, phi := range ctl {
+				self := false
+				for j, e := range phi.Edges {
+					if !lp.Blocks[b.Preds[j]] || c07EdgeInfeasible(b.Preds[j], b) {
+						continue
+					}
+					via := map[ssa.Value]bool{}
+					if !canBeSelf(e, phi, via) {
+						continue
+					}
+					// unchanged, but the edge itself may establish that the loop test now fails (an inner loop that
+					// consumed the rest of the input hands back "position >= length"): then the loop ends
+					si := 0
+					for q, sc := range b.Preds[j].Succs {
+						if sc == b {
+							si = q
+						}
+					}
+					stayIdx := 0
+					if !lp.Blocks[b.Succs[0]] {
+						stayIdx = 1
+					}
+					neg := map[string]string{"<": ">=", "<=": ">", ">": "<=", ">=": "<", "==": "!=", "!=": "=="}
+					selfE := an.Expr(phi)
+					ends := false
+					for _, f := range an.EdgeFacts(b.Preds[j], si) {
+						fl, fr := f.L, f.R
+						for v := range via {
+							if p2, ok := v.(*ssa.Phi); ok {
+								fl = strings.ReplaceAll(fl, an.Expr(p2), selfE)
+								fr = strings.ReplaceAll(fr, an.Expr(p2), selfE)
+							}
+						}
+						for _, st := range an.CondAtoms(ifi.Cond, stayIdx == 0) {
+							if st.L == fl && st.R == fr && neg[st.Op] == f.Op {
+								ends = true
+							}
+						}
+					}
+					if !ends {
+						self = true
+					}
+				}
+				if !self {
+					stuck = false // this control value changes on every path
+				} else {
+					where = append(where, tempName.ReplaceAllString(strings.TrimPrefix(an.Expr(phi), "*"), ""))
+				}
+			}
+			key := fmt.Sprintf("%s: loop at %s advances", an.RelName(fn), strings.TrimPrefix(c.P.Position(b.Instrs[0].Pos()), ""))
+			key = tempName.ReplaceAllString(key, "")
+			if !stuck {
+				c.Ok("R10", fmt.Sprintf("%s: scanning loop #%d advances on every path", an.RelName(fn), n), ifi.Pos(), "a value of the continuation test changes on every path of an iteration")
+				continue
+			}
+			k := an.RelName(fn) + "|" + strings.Join(where, ",")
+			if why, ok := c07ProgressAllow[k]; ok {
+				c.Note("R10", fmt.Sprintf("%s: scanning loop over %s", an.RelName(fn), strings.Join(where, ",")), ifi.Pos(), "not decided mechanically; manual argument: "+why)
+				continue
+			}
+			c.Bad("R10", fmt.Sprintf("%s: scanning loop over %s advances on every path", an.RelName(fn), strings.Join(where, ",")), ifi.Pos(), "some path through the loop body returns to the loop test with "+strings.Join(where, ", ")+" unchanged: the test then gives the same answer again and the loop never ends (a request value chosen by the peer hangs the transaction)")
+		}
+	}
+	c.MinCount("R10", "scanning loops with a loop-carried position", n, 10)
 }
 
 // c07Status: net/http's WriteHeader panics ("invalid WriteHeader code") for a status outside
